@@ -289,18 +289,18 @@ theorem ws_drainSlots_go (h : Ws P lg o d c) (r : Reply) (m : CMsg) (all l : Lis
     dsimp only
     split
     · rename_i heq
-      have h1 := (ws_sendReply h s.lid r).of_eq_fst heq
+      have h1 := (ws_notifyConsumers h m s.consumers).of_eq_fst heq
       have h2 := ws_foldl_dropSlotEnds h1 (s :: rest.map (·.2))
       ws_same h2
     · rename_i heq
-      have h1 := (ws_sendReply h s.lid r).of_eq_fst heq
+      have h1 := (ws_notifyConsumers h m s.consumers).of_eq_fst heq
       split
       · rename_i heq2
-        have h2 := (ws_notifyConsumers h1 m s.consumers).of_eq_fst heq2
+        have h2 := (ws_sendReply h1 s.lid r).of_eq_fst heq2
         have h3 := ws_foldl_dropSlotEnds h2 (s :: rest.map (·.2))
         ws_same h3
       · rename_i heq2
-        have h2 := (ws_notifyConsumers h1 m s.consumers).of_eq_fst heq2
+        have h2 := (ws_sendReply h1 s.lid r).of_eq_fst heq2
         exact ih (ws_dropSlotEnds h2 s)
 
 omit G in
